@@ -60,3 +60,19 @@ package aggoracle
 //@   ensures[missing-root-is-injected-or-an-error] (result == nil && injectCalls == old(injectCalls)) ==> old(gerInjected)[latestGerUntil(ite(old(*blockNumToFetch) != 0, old(*blockNumToFetch), lastSampled))]
 //@   ensures[pending-block-stays-finalized] *blockNumToFetch != 0 ==> sampledFinal[*blockNumToFetch]
 //@   ensures[block-retained-only-while-the-syncer-lags] *blockNumToFetch != 0 ==> infoLookupsOK == old(infoLookupsOK)
+
+// ---- the oracle's loop (C15): every tick runs one processLatestGER on the same retained-block cell; its
+// precondition (a retained block was sampled with the configured finality) is an invariant of the loop, so the
+// per-tick statements above hold on every tick of every run, and nothing else in the loop injects
+//@ func (a *AggOracle) handleGERProcessingError
+//@   trusted
+//@   modifies nothing
+//@ func (a *AggOracle) Start
+//@   props C15
+//@   requires a != nil && a.l1Client != nil && a.l1Info != nil && a.chainSender != nil && a.logger != nil
+//@   modifies sampledFinal, lastSampled, gerInjected, lastInjected, injectCalls, infoLookupsOK
+//@   nocalls
+//@   allowcalls processLatestGER handleGERProcessingError NewTicker Stop Done
+//@   loop 0 invariant ticker != nil
+//@   loop 0 invariant a.l1Client != nil && a.l1Info != nil && a.chainSender != nil && a.logger != nil
+//@   loop 0 invariant blockNumToFetch != 0 ==> sampledFinal[blockNumToFetch]
